@@ -206,6 +206,19 @@ pub fn check_spawn(ctx: &Ctx, c: &SpawnCase) -> CaseResult {
     Ok(rep)
 }
 
+/// fork as the kernel does it, then - in the parent only - a pause of 3 ms: the child runs ahead, is through its
+/// set-up and inside the requested program before the caller executes the instruction after its fork
+fn fork_then_parent_lags(_a: &[usize; 6]) -> usize {
+    let r = unsafe { libc::syscall(libc::SYS_fork) };
+    if r < 0 {
+        return sc::verif::neg_errno(unsafe { *libc::__errno_location() });
+    }
+    if r > 0 {
+        std::thread::sleep(std::time::Duration::from_millis(3));
+    }
+    r as usize
+}
+
 fn run_case(c: &SpawnCase, root: &std::path::Path, rep: &mut CaseReport) -> Result<(), Failure> {
     let dump_path = root.join("dump.json");
     let helper = helper_path();
@@ -350,6 +363,11 @@ fn run_case(c: &SpawnCase, root: &std::path::Path, rep: &mut CaseReport) -> Resu
     let mut parent_fault = false;
     let mut read_fault = false;
     match c.fault {
+        Fault::None if c.exit_code % 4 == 2 => {
+            // no fault, a schedule: the caller is held up right after its fork returns (every fourth fault-free case)
+            rules.push(Rule { nr: Some(sc::nr::FORK), nth: Some(0), action: Action::Emulate(fork_then_parent_lags), times: 1 });
+            rep.class("caller-held-up-right-after-fork");
+        }
         Fault::None => {}
         Fault::Pipe2(k, e) => {
             if (k as usize) < n_pipes {
